@@ -196,6 +196,7 @@ func c54(r *vkit.Run) {
 		for i, nr := 0, r.N(90, 1500); i < nr; i++ {
 			rounds = append(rounds, c54XGen(r.Rng("xround", i), i))
 		}
+		rounds = append(rounds, c54XSlowRounds(len(rounds))...)
 		n := 0
 		add := func(c c54Case) {
 			c.ID = fmt.Sprintf("q%d", n)
